@@ -1,6 +1,7 @@
 package checks
 
 import (
+	"context"
 	"crypto/ecdsa"
 	"crypto/ed25519"
 	"crypto/x509"
@@ -34,6 +35,12 @@ type AdapterCfg struct {
 	Digest   []byte    `json:"digest"`
 	Topic    string    `json:"topic"`
 	Steal    uint16    `json:"steal"` // a participant that re-sends other parties' payloads under its own identity (0: nobody)
+	// Direct: the adapters of a key generation are wired to one another through the simulator, without the
+	// orchestrator (whose filter screens non-members before the adapter sees them): the adapter itself must bind a
+	// message to its transport sender. Outsiders are node identifiers that are not parties of the session; they
+	// re-send copies of the parties' protocol messages under their own (authenticated) identity.
+	Direct    bool     `json:"direct,omitempty"`
+	Outsiders []uint16 `json:"outsiders,omitempty"`
 }
 
 func genAdapter(seed uint64, tier string, pECDSA float64) AdapterCfg {
@@ -86,6 +93,28 @@ func genAdapter(seed uint64, tier string, pECDSA float64) AdapterCfg {
 			c.Steal = sp[c.Steal-1]
 		}
 		c.Deploy.IDs = sp
+	}
+	// a quarter of the runs (half of the ECDSA ones): adapter-to-adapter key generation with non-member senders
+	if rd := prng.Derive(seed, "direct"); rd.Bool(0.25) || (backend == "ecdsa" && rd.Bool(0.34)) {
+		c.Direct = true
+		c.Steal = 0
+		// spread the parties out so that there is room for outsiders below, between and above them
+		next := uint16(0)
+		ids := make([]uint16, n)
+		for i := range ids {
+			next += uint16(rd.Range(2, 9))
+			ids[i] = next
+		}
+		c.Deploy.IDs = ids
+		isMember := map[uint16]bool{}
+		for _, id := range ids {
+			isMember[id] = true
+		}
+		for _, o := range []uint16{uint16(rd.Intn(int(ids[0]))), ids[0] + 1, ids[n-1] - 1, ids[n-1] + uint16(rd.Range(1, 5))} {
+			if !isMember[o] {
+				c.Outsiders = append(c.Outsiders, o)
+			}
+		}
 	}
 	return c
 }
@@ -172,11 +201,144 @@ type adapterOut struct {
 	msgTypes   int
 }
 
+// runAdapterDirect executes a key generation of adapters wired to one another through the simulator, while
+// non-members re-send copies of the parties' messages under their own identity. Every party is honest and every
+// message is delivered: the key generation must succeed with identical public keys, whatever the non-members send.
+func runAdapterDirect(t *testing.T, spec RunSpec, cfg AdapterCfg, res *RunResult, out *adapterOut) {
+	v := func(kind, detail string) {
+		out.violations = append(out.violations, netsim.Violation{Invariant: kind, Class: kind + "/" + cfg.Deploy.Backend, Detail: detail})
+	}
+	bubble(t, func() {
+		w := netsim.NewWorld(spec.Seed)
+		trace(spec, res.Cfg, w)
+		lg := NewCountLogger()
+		topic := sha([]byte("direct"))
+		type kgT interface {
+			tss.KeyGenerator
+			SetShareData([]byte) error
+			ThresholdPK() ([]byte, error)
+		}
+		parties := map[uint16]kgT{}
+		for _, id := range cfg.Deploy.IDs {
+			var kg kgT
+			if cfg.Deploy.Backend == "ecdsa" {
+				kg = ecdsa_scheme.NewParty(id, lg)
+			} else {
+				kg = eddsa_scheme.NewParty(id, lg)
+			}
+			parties[id] = kg
+		}
+		isMember := map[uint16]bool{}
+		for _, id := range cfg.Deploy.IDs {
+			isMember[id] = true
+		}
+		for _, o := range cfg.Outsiders {
+			w.AddNode(o, netsim.EndpointFunc(func(*tss.IncMessage) {}))
+		}
+		// every protocol message a party puts on the wire is also re-sent, unchanged, by some of the non-members
+		w.Filter = func(m *netsim.Msg) []*netsim.Msg {
+			outMsgs := []*netsim.Msg{m}
+			if !isMember[m.From] || m.Tag != "" {
+				return outMsgs
+			}
+			for _, o := range cfg.Outsiders {
+				if prng.Hash64(m.Data, []byte{byte(o), byte(o >> 8), byte(m.To)})%3 == 0 {
+					w.Inject(o, m.To, m.Type, m.Topic, m.Data, "outsider-payload")
+					w.Faults["outsider-payload"]++
+				}
+			}
+			return outMsgs
+		}
+		st := &starter{}
+		timeout := 10 * time.Minute
+		var cancels []context.CancelFunc
+		for _, id := range cfg.Deploy.IDs {
+			id := id
+			kg := parties[id]
+			send := w.SendFunc(id)
+			var others []uint16
+			for _, o := range cfg.Deploy.IDs {
+				if o != id {
+					others = append(others, o)
+				}
+			}
+			kg.Init(cfg.Deploy.IDs, cfg.T, func(msg []byte, isBroadcast bool, to uint16) {
+				if isBroadcast {
+					send(uint8(tss.MsgTypeMPC), topic, msg, others...)
+				} else {
+					send(uint8(tss.MsgTypeMPC), topic, msg, to)
+				}
+			})
+			w.AddNode(id, netsim.EndpointFunc(func(inc *tss.IncMessage) {
+				_, bcast, err := kg.ClassifyMsg(inc.Data)
+				if err != nil {
+					return
+				}
+				kg.OnMsg(inc.Data, inc.Source, bcast)
+			}))
+			st.add(fmt.Sprintf("start:kg:%d", id), id, 3, func() *netsim.Call {
+				ctx, cancel := context.WithTimeout(context.Background(), timeout)
+				cancels = append(cancels, cancel)
+				return w.StartCall("KeyGen", id, func() ([]byte, error) { return kg.KeyGen(ctx) })
+			})
+		}
+		sched, ss := scheduler(spec, cfg.Strategy)
+		lim := netsim.RunLimits{MaxSteps: 300000, Horizon: 20 * time.Minute, FairAfterSteps: 8000, FairAfter: 3 * time.Minute}
+		w.Propose = st.proposals
+		if vv := w.Run(sched, lim, func() bool { return st.allDone(w) && quiet(w) }); vv != nil {
+			out.violations = append(out.violations, *vv)
+		}
+		for _, p := range w.Panics {
+			out.violations = append(out.violations, panicViolations(&netsim.World{Panics: []netsim.PanicRec{p}}, "panic")...)
+		}
+		if len(out.violations) == 0 {
+			if !st.allDone(w) {
+				v("outsider-disturbed-session", fmt.Sprintf("key generation among honest parties %v did not finish while non-members %v re-sent copies of their messages: %s", cfg.Deploy.IDs, cfg.Outsiders, callSummary(st.calls())))
+			} else {
+				var pk0 []byte
+				for _, c := range st.calls() {
+					if c.Err != nil {
+						v("outsider-disturbed-session", fmt.Sprintf("key generation among honest parties %v failed while non-members %v re-sent copies of their messages under their own identity (a message must be bound to its transport sender, and a sender that is no party of the session has no say): %s", cfg.Deploy.IDs, cfg.Outsiders, callSummary(st.calls())))
+						break
+					}
+					kg := parties[c.Node]
+					if err := kg.SetShareData(c.Out); err != nil {
+						v("stored-data", fmt.Sprintf("party %d: stored data does not load: %v", c.Node, err))
+						break
+					}
+					pk, err := kg.ThresholdPK()
+					if err != nil {
+						v("threshold-pk", "ThresholdPK: "+err.Error())
+						break
+					}
+					if pk0 == nil {
+						pk0 = pk
+					} else if string(pk0) != string(pk) {
+						v("public-material-differs", fmt.Sprintf("parties report different public keys after a key generation during which non-members %v re-sent copies of protocol messages", cfg.Outsiders))
+						break
+					}
+				}
+				out.completed = len(out.violations) == 0
+			}
+		}
+		res.Nontrivial = w.Faults["outsider-payload"] > 0
+		for _, c := range cancels {
+			c()
+		}
+		time.Sleep(2 * time.Second)
+		fillResult(res, w, ss)
+	})
+}
+
 // runAdapter executes KeyGen then Sign with a tss-lib adapter through the full stack.
 func runAdapter(t *testing.T, spec RunSpec, cfg AdapterCfg, res *RunResult) *adapterOut {
 	out := &adapterOut{rec: &adapterRec{}, sigs: map[uint16][]byte{}}
 	v := func(kind, detail string) {
 		out.violations = append(out.violations, netsim.Violation{Invariant: kind, Class: kind + "/" + cfg.Deploy.Backend, Detail: detail})
+	}
+	if cfg.Direct {
+		runAdapterDirect(t, spec, cfg, res, out)
+		return out
 	}
 	bubble(t, func() {
 		w := netsim.NewWorld(spec.Seed)
@@ -418,7 +580,7 @@ func runC19(t *testing.T, spec RunSpec) *RunResult {
 		}
 		res.Violations = append(res.Violations, v)
 	}
-	if len(res.Violations) == 0 {
+	if len(res.Violations) == 0 && !cfg.Direct {
 		k, d, n := classificationOracle(cfg, out)
 		res.Probes["message-types-seen"] = n
 		if k != "" {
@@ -430,6 +592,11 @@ func runC19(t *testing.T, spec RunSpec) *RunResult {
 			res.Violations = append(res.Violations, netsim.Violation{Invariant: "C19/" + k, Class: "C19/" + k + "/" + cfg.Deploy.Backend, Detail: d})
 		}
 		res.Probes["signatures-checked"] = len(out.sigs)
+	}
+	if cfg.Direct {
+		res.ConfigKey = fmt.Sprintf("%s n=%d t=%d adapter-to-adapter outsiders=%d", cfg.Deploy.Backend, cfg.N, cfg.T, len(cfg.Outsiders))
+		res.Nontrivial = res.Nontrivial && out.completed
+		return res
 	}
 	res.Nontrivial = res.Nontrivial && len(out.sigs) > 0
 	return res
